@@ -349,7 +349,7 @@ func genWire(tier string) []proto.Item {
 		if !vi.Parallel {
 			continue
 		}
-		for _, r := range [][3]int{{1, 4, 3}, {2, 5, 5}} {
+		for _, r := range [][3]int{{1, 4, 3}, {2, 5, 5}, {253, 255, 0}, {253, 255, 255}} {
 			for _, lat := range []string{"none", "default", "none-at-one-hop"} {
 				s := proto.Scn{Variant: v, First: r[0], Last: r[1], Dest: r[2], IPIDBase: 700, EchoBase: 71, TimeoutMs: 100, DelayMs: 10}
 				s.Hops = map[int]proto.HopSpec{}
